@@ -34,4 +34,8 @@ def generate(tier, seed):
             src.append(fn(n, "    range_%s_agrees(mk_range(%d));" % (law, sv)))
             hs.append(Harness(n, "ElixirRange %s agrees with the 128-bit reference; step=%s, first/last%s all i64" % (
                 law, "symbolic" if sv == 0 else sv, "/value" if law == "contains" else ""), unwind=5, cap_s=300))
+    src.append(fn("c20_date_roundtrip", "    date_roundtrip();"))
+    hs.append(Harness("c20_date_roundtrip", "ElixirDate -> term -> ElixirDate for all i32 year, u8 month/day", unwind=4,
+                      unwindset=[(r"Atom::new", 16), (r"^memcmp$", 24)], cap_s=600,
+                      recursion=[(r"OwnedTerm as std::(cmp::Ord>::cmp|cmp::PartialEq>::eq)", 0)]))
     return "\n".join(src), hs
